@@ -34,10 +34,10 @@ PLAN = {
     "quick": dict(types=["SO3d", "SE2d", "SE3d", "Gald", "SEK3_2d", "B3d", "SE3f", "C1f"],
                   model=[(2, "core")], deep=[], d2cap=120, sim=(12, 120), asan=False, procs=8, chunk=1200),
     "thorough": dict(types=["SO2d", "SO3d", "SE2d", "SE3d", "C1f", "Gald", "SEK3_2d", "SEK3_3d", "B3d", "B5d", "BNd", "SE3f", "Galf", "SE2f"],
-                     model=[(2, "full")], deep=[("SO2", 3, "core"), ("C1", 3, "core")],
-                     d2cap=4000, sim=(60, 2000), asan=True, procs=8, chunk=2500),
+                     model=[(2, "full")], deep=[("SO2", 3, "core")],
+                     d2cap=3000, sim=(30, 1500), asan=True, procs=8, chunk=2500),
 }
-FULL_D2 = ("SO2", "C1", "SO3", "SE2", "SE3")      # model types whose full alphabet (<= 873 steps) is explored to depth 2
+FULL_D2 = ("SO2", "SO3", "SE2")      # model types whose full alphabet (431, 520, 873 steps) is explored to depth 2
 SPEC_MUTANTS = [("alias", "SE3"), ("notemp", "SE2"), ("short", "SE2"), ("galso3", "Gal"), ("dofpsum", "B3")]
 
 ASSUME = [
